@@ -328,7 +328,7 @@ def c04_sweep_indices(res, run, world, lo, hi, subs):
     return True
 
 
-STATES = ["idle", "segdn", "segup", "blkdn", "dnwait", "blkupwait", "blkupsent",
+STATES = ["idle", "segdn", "segup", "segup0", "blkdn", "dnwait", "blkupwait", "blkupsent",
           "done-expdn", "done-expup", "done-segdn", "done-segup", "done-blkdn", "done-blkup",
           "abrt-segdn-toggle", "abrt-segup-toggle", "abrt-blkdn-overrun", "abrt-segdn-overrun", "abrt-blkdn-size"]
 IDLE_LIKE = ("idle", "done-expdn", "done-expup", "done-segdn", "done-segup", "done-blkdn", "done-blkup",
@@ -342,6 +342,7 @@ def enter_state(run, world, st, dom, bs=4):
         "idle": [],
         "segdn": [bytes([0x21]) + m + le32(50)],
         "segup": [bytes([0x40]) + m + bytes(4)],
+        "segup0": [bytes([0x40]) + RC.mux(0x2122, 0) + bytes(4)],          # upload of an object that is empty at the moment: announced with size 0, the one (empty) segment not yet requested
         "blkdn": [bytes([0xC2]) + m + le32(60), bytes([1]) + bytes(7)],
         "dnwait": [bytes([0xC2]) + m + le32(7), bytes([0x81]) + bytes(7)],
         "blkupwait": [bytes([0xA0]) + m + bytes([bs, 0, 0, 0])],
@@ -369,7 +370,7 @@ def allowed_counts(st, cmd, frame, bs):
     """Acceptable numbers of response frames for a frame arriving in protocol state st (relational model, section A.1)."""
     if cmd == 0x80:
         return (0, 1)
-    if st in IDLE_LIKE or st in ("segdn", "segup"):
+    if st in IDLE_LIKE or st in ("segdn", "segup", "segup0"):
         return (1, 1)
     if st == "blkdn":
         if (cmd & 0x7F) == 127 or (cmd & 0x80):
@@ -456,12 +457,12 @@ def c04_state_sweep(res, run, world, rng, st, cmds):
                     res.violation("c04/verdict/not-refused/%s" % ("completed" if st != "idle" else "idle"),
                                   "%s: a command that fits no state (server idle) was answered %s instead of an abort" % (what, [r.hex() for r in resp]), sim=sim)
                     return False
-            if (st in IDLE_LIKE or st in ("segdn", "segup")) and strict_init and pl[1:4] == RC.mux(0x5FF0, 1):
+            if (st in IDLE_LIKE or st in ("segdn", "segup", "segup0")) and strict_init and pl[1:4] == RC.mux(0x5FF0, 1):
                 code = parse_abort(resp[0]) if len(resp) == 1 else None
                 if code != E_OBJ or resp[0][1:4] != pl[1:4]:
                     res.violation("c04/verdict/absent-object/%s" % st, "%s: initiate for a non-existent object answered %s, reference abort 0602 0000h for 5FF0h:1" % (what, [r.hex() for r in resp]), sim=sim)
                     return False
-            if len(resp) == 1 and resp[0][0] != 0x80 and (st in IDLE_LIKE or st in ("segdn", "segup")) and strict_init:
+            if len(resp) == 1 and resp[0][0] != 0x80 and (st in IDLE_LIKE or st in ("segdn", "segup", "segup0")) and strict_init:
                 r = resp[0]
                 k = (pl[1] | (pl[2] << 8), pl[3])
                 o = world.om.get(k)
@@ -473,7 +474,7 @@ def c04_state_sweep(res, run, world, rng, st, cmds):
                         res.violation("c04/upload-size/%s" % st, "%s: block upload answer announces %d bytes, %04x:%02x has %d" % (what, int.from_bytes(r[4:8], "little"), k[0], k[1], o.size()), sim=sim)
                         return False
             # positive initiate responses must concern the request's multiplexer
-            if len(resp) == 1 and resp[0][0] != 0x80 and (st in IDLE_LIKE or st in ("segdn", "segup")):
+            if len(resp) == 1 and resp[0][0] != 0x80 and (st in IDLE_LIKE or st in ("segdn", "segup", "segup0")):
                 r = resp[0]
                 is_init_req = (cmd & 0xE0) == 0x20 or cmd == 0x40 or (cmd & 0xF9) == 0xC0 or (cmd & 0xE3) == 0xA0
                 is_init_resp = r[0] == 0x60 or (r[0] & 0xE0) == 0x40 or (r[0] & 0xFB) == 0xA0 or (r[0] & 0xF9) == 0xC0
